@@ -145,6 +145,9 @@ func shippedPackages() []*pkgInfo {
 type synthDict struct {
 	name string
 	text string
+	// optional: a dictionary at the edge of what a generator can support.  If the working tree's generator refuses
+	// it, the package is left out; if it accepts it, its helpers are held to the same laws as all others.
+	optional bool
 }
 
 func synthDicts() []synthDict {
@@ -217,8 +220,17 @@ func synthDicts() []synthDict {
 			}
 			fmt.Fprintf(&b, "END-VENDOR\tSynV%d%d\n", variant, v)
 		}
-		ds = append(ds, synthDict{fmt.Sprintf("s%d", variant), b.String()})
+		ds = append(ds, synthDict{name: fmt.Sprintf("s%d", variant), text: b.String()})
 	}
+	// numbers at and beyond the ends of the one-octet ranges: the Type of a top-level attribute, the vendor type of
+	// a vendor attribute, the largest Vendor-Id (one dictionary each, so that refusing one does not hide the others;
+	// Vendor-Id 0 is not probed: the descriptors of the line protocol use 0 for "no vendor")
+	ds = append(ds,
+		synthDict{name: "e0", text: "ATTRIBUTE\tSynE0-Zero\t0\tstring\nATTRIBUTE\tSynE0-Last\t255\tinteger\n", optional: true},
+		synthDict{name: "e1", text: "ATTRIBUTE\tSynE1-Beyond\t256\tstring\n", optional: true},
+		synthDict{name: "e2", text: "ATTRIBUTE\tSynE2-Far\t300\tinteger\nATTRIBUTE\tSynE2-Text\t65536\tstring\n", optional: true},
+		synthDict{name: "e3", text: "VENDOR\tSynE3V\t4294967295\nBEGIN-VENDOR\tSynE3V\nATTRIBUTE\tSynE3-Edge\t255\tstring\nATTRIBUTE\tSynE3-Zero\t0\toctets\nEND-VENDOR\tSynE3V\n", optional: true},
+	)
 	return ds
 }
 
@@ -242,11 +254,19 @@ func genSynth(harnessDir string) []*pkgInfo {
 		p := dictionary.Parser{Opener: &dictionary.FileSystemOpener{}, IgnoreIdenticalAttributes: true}
 		dict, err := p.ParseFile(dictFile)
 		if err != nil {
+			if d.optional {
+				os.RemoveAll(dir)
+				continue
+			}
 			must(fmt.Errorf("synthetic dictionary %s does not parse with the working tree's parser: %v", d.name, err))
 		}
 		g := dictionarygen.Generator{Package: d.name}
 		src, err := g.Generate(dict)
 		if err != nil {
+			if d.optional {
+				os.RemoveAll(dir)
+				continue
+			}
 			must(fmt.Errorf("the working tree's generator refuses synthetic dictionary %s: %v", d.name, err))
 		}
 		must(os.WriteFile(filepath.Join(dir, "generated.go"), src, 0o644))
